@@ -303,7 +303,7 @@ func runC06(env *core.Env) {
 				id = idOf(res)
 				if id == "" {
 					// rejected creation: look for a new item anyway (created-then-failed)
-					ob := core.Observe(w.Run, w.Proj)
+					ob := core.ObserveW(w, w.Proj)
 					for _, it := range ob.All {
 						if it.ID != task {
 							id = it.ID
